@@ -34,6 +34,20 @@ LEVEL_TEXT = ("Fault-free configuration of the simulator: seeded call "
 
 def plan(rng, tier):
     cfg = common.draw_cfg(rng, p_sub=0.08)
+    pre = 0
+    if cfg["leaf"] is None and cfg["kind"] in ("BTree", "TreeSet") and \
+            rng.random() < 0.5:
+        # default node sizes with enough keys for several leaves -- and,
+        # rarely, for interior nodes that split at their default fan-out
+        cfg["dom"]["ext"] = False
+        cfg["dom"].pop("none", None)
+        if cfg["dom"]["fam"] == "OO" and cfg["kind"] == "BTree" and \
+                rng.random() < (0.1 if tier == "quick" else 0.3):
+            cfg["dom"]["nk"] = rng.choice([8500, 10000])
+            cfg["dom"]["kflavor"] = rng.choice(["int", "str"])
+        else:
+            cfg["dom"]["nk"] = rng.choice([300, 700, 1500])
+        pre = cfg["dom"]["nk"] - rng.randrange(cfg["dom"]["nk"] // 10)
     dom = Domain(cfg["dom"])
     g = common.Gen(rng, dom, cfg["kind"])
     g.p_bad = 0.03
@@ -41,11 +55,27 @@ def plan(rng, tier):
         [30, 60, 120, 250, 400])
     if cfg["leaf"] is None:
         n = max(n, 60)
-    hist = g.history(n)
+    if pre > 5000:
+        n = min(n, 40)
+    hist = []
+    if pre:
+        if rng.random() < 0.5:
+            for k in range(pre):        # ascending
+                op = ["set", k, g.val()] if g.mapping else ["add", k]
+                g.model.apply(op)
+                hist.append(op)
+        else:
+            hist = g.fill(pre)
+    npre = len(hist)
+    hist += g.history(n)
     if cfg["stored"]:
         out = []
-        for op in hist:
+        for j, op in enumerate(hist):
             out.append(op)
+            if j < npre - 1:
+                continue
+            if j == npre - 1:
+                npre = len(out)
             if rng.random() < 0.2:
                 out.append(["commit"])
                 if rng.random() < 0.6:
@@ -53,7 +83,7 @@ def plan(rng, tier):
                     out.append(["sweep", rng.choice(["minimize", "some"]),
                                 rng.randrange(1 << 16)])
         hist = out
-    return {"cfg": cfg, "ops": hist}
+    return {"cfg": cfg, "ops": hist, "pre": npre}
 
 
 def simplify(plan):
@@ -124,7 +154,8 @@ def _check_kept(kept, op, impl, kind):
 
 
 def _run(plan, ctx, cfg, dom, c, conn, model, impl, kind, used, kept):
-    for op in plan["ops"]:
+    pre = plan.get("pre", 0)
+    for idx, op in enumerate(plan["ops"]):
         name = op[0]
         if name == "commit":
             if conn is not None:
@@ -137,6 +168,8 @@ def _run(plan, ctx, cfg, dom, c, conn, model, impl, kind, used, kept):
             continue
         want = model.apply(op)
         got = ops.apply(c, op, dom, impl, kind)
+        if idx < pre - 1:
+            continue        # bulk preload: compared when it is complete
         used.add(name)
         if name in ("update", "supdate") and got[0] == "ok":
             got = ("ok", None)
